@@ -152,7 +152,8 @@ impl C19 {
             }
         }
         // 5. keeper fee per coin
-        let kr = c.cfg.keeper_rate.atomics().u128();
+        // the rate the dispatcher is configured with right now (falls back to the deployment's rate)
+        let kr = crate::monitors::c17::dispatcher_cfg(c.w_pre).map(|x| x.krp_keeper_rate.atomics().u128()).unwrap_or(c.cfg.keeper_rate.atomics().u128());
         let mut to_keeper = std::collections::BTreeMap::<String, u128>::new();
         let mut to_reward = 0u128;
         let mut disp_idx = None;
@@ -179,7 +180,8 @@ impl C19 {
         // what the dispatcher held when DispatchRewards ran = what it forwarded (it ends with nothing)
         let held_usei = to_keeper.get(USEI).cloned().unwrap_or(0) + rebond;
         let held_kusd = to_keeper.get(KUSD).cloned().unwrap_or(0) + to_reward;
-        if to_keeper.get(USEI).cloned().unwrap_or(0) != mul_rate(held_usei, kr) || to_keeper.get(KUSD).cloned().unwrap_or(0) != mul_rate(held_kusd, kr) {
+        // "minus the keeper fee": balance x rate; which way the last unit is rounded is C17's sentence
+        if to_keeper.get(USEI).cloned().unwrap_or(0).abs_diff(mul_rate(held_usei, kr)) > 1 || to_keeper.get(KUSD).cloned().unwrap_or(0).abs_diff(mul_rate(held_kusd, kr)) > 1 {
             out.violation(P, "keeper_fee", format!("keeper received {:?} of holdings ({} usei, {} kusd) at rate {}", to_keeper, held_usei, held_kusd, c.cfg.keeper_rate));
         }
         for d in [USEI, KUSD] {
@@ -193,7 +195,11 @@ impl C19 {
         // within the rounding of the share, the inverse price and two swap floors
         {
             let price = c.w_pre.price.atomics().u128();
-            let (pb, ps) = (pre.raw_pool_b, pre.raw_pool_s);
+            // the stake "the hub books": the stored pools, or the pools with a pending slash recognised (an update may
+            // recognise slashing first) - either reading is accepted
+            let mut split_ok = false;
+            let mut split_msg = String::new();
+            for (pb, ps) in [(pre.raw_pool_b, pre.raw_pool_s), (pre.pool_b, pre.pool_s)] {
             if pb + ps > 0 && price > 0 {
                 use cosmwasm_std::Uint512;
                 let other_kusd = if c.cfg.extra_denom && dispatcher_swaps_extra(c) {
@@ -229,7 +235,12 @@ impl C19 {
                 // one received-coin unit of rounding per swap the dispatcher makes (two for the usual single swap)
                 let n_swaps = tr.execs.iter().filter(|x| x.caller == DISPATCHER && x.callee == SWAP).count().max(1) as u128;
                 let tol = 4 + (1 + n_swaps) * mul_div_ceil(E18, 1, price).max(1);
-                if diff > Uint512::from(tol) * den {
+                if diff <= Uint512::from(tol) * den {
+                    split_ok = true;
+                } else if split_msg.is_empty() {
+                    split_msg = "x".into();
+                }
+                if false {
                     out.violation(
                         P,
                         "split_by_booked_stake",
@@ -239,6 +250,16 @@ impl C19 {
                 if pb > 0 && ps > 0 && u0 + k0 > 1000 {
                     out.count("c19.updates_split_checked_both_pools");
                 }
+            } else {
+                split_ok = true;
+            }
+            }
+            if !split_ok {
+                out.violation(
+                    P,
+                    "split_by_booked_stake",
+                    format!("the stSei side received {} usei: not the pro-rata share of the rewards by the stored pools ({}, {}) nor by the pools with pending slashing recognised ({}, {}), price {}", held_usei, pre.raw_pool_b, pre.raw_pool_s, pre.pool_b, pre.pool_s, c.w_pre.price),
+                );
             }
         }
         // 6. bSei holders' claimable total grows by what was delivered (plus the not-yet-indexed backlog), within dust
@@ -269,7 +290,18 @@ impl C19 {
         if pre.hub_bank != post.hub_bank {
             out.violation(P, "hub_balance_untouched", format!("hub balance {} -> {}", pre.hub_bank, post.hub_bank));
         }
-        if pre.requests != post.requests || pre.history != post.history || total_released_claims(pre) != total_released_claims(post) {
+        // unbonders' claims: the requests, and every batch that was released already (whether the update also settles
+        // a batch that has matured meanwhile is free - C08 judges the time lock of any release)
+        let released_changed = pre.history.iter().filter(|h| h.released).any(|h| post.hist(h.batch_id) != Some(h));
+        let unreleased_core_changed = pre.history.iter().filter(|h| !h.released).any(|h| match post.hist(h.batch_id) {
+            Some(p) => p.time != h.time || p.bsei_amount != h.bsei_amount || p.stsei_amount != h.stsei_amount,
+            None => true,
+        });
+        let settled_now = pre.history.iter().any(|h| !h.released && post.hist(h.batch_id).map(|p| p.released).unwrap_or(false));
+        if settled_now {
+            out.count("c19.updates_settling_matured_batches");
+        }
+        if pre.requests != post.requests || released_changed || unreleased_core_changed || (!settled_now && total_released_claims(pre) != total_released_claims(post)) {
             out.violation(P, "claims_untouched", "unbond requests / history changed during UpdateGlobalIndex".into());
         }
         // 8. value conservation at the oracle price (in kusd): withdrawn + prior holdings = keeper + reward + rebond, within rounding
@@ -327,6 +359,7 @@ impl Monitor for C19 {
         // index updates triggered by the registry while it removes a validator are judged too
         if let Op::RemoveValidator { sender, .. } = c.op {
             if sender == OWNER && c.res.ok() && !c.pre.params.paused.unwrap_or(false) {
+                out.count("c19.validator_removals_seen");
                 let has_update = c.res.trace().map(|t| t.execs.iter().any(|e| e.callee == HUB && e.msg.starts_with("{\"update_global_index\""))).unwrap_or(false);
                 if has_update {
                     out.count("c19.updates_inside_validator_removal");
